@@ -367,6 +367,12 @@ def dump_cfg(r, cfg, d, name, force=None):
     how = force or r.choice(["inline", "json", "yaml"])
     if how == "inline":
         return json.dumps(cfg), how
+    # every other configuration file goes to ONE directory shared by all cases of the run: the same path is then
+    # rewritten with other contents between invocations of the tools in this process (a tuning loop does that), and
+    # what a tool stores must follow the file's current contents
+    if r.random() < 0.5:
+        d = os.path.join(os.path.dirname(os.path.abspath(d)), "shared_cfg")
+        os.makedirs(d, exist_ok=True)
     path = os.path.join(d, "%s.%s" % (name, how))
     with open(path, "w") as f:
         if how == "json":
